@@ -82,6 +82,10 @@ func Supported(ie *entities.InfoElement) bool {
 	return false
 }
 
+// NonUTF8 lets Abs put bytes that are not valid UTF-8 into string values (off for runs whose observation
+// goes through a text rendering, e.g. the JSON record mode).
+var NonUTF8 = false
+
 // Width is the fixed width of a value of ie, or -1 for variable length.
 func Width(ie *entities.InfoElement) int {
 	if ie.Len == entities.VariableLength || ie.DataType == entities.String {
@@ -150,6 +154,22 @@ func Abs(r *rand.Rand, ie *entities.InfoElement, maxVar int) []int {
 			case 2:
 				for i := range b {
 					b[i] = 0
+				}
+			case 3, 4:
+				// strings are octets, not text: bytes that are no valid UTF-8 (a lone continuation byte, 0xff, a name
+				// cut inside a multi-byte character, Latin-1)
+				if NonUTF8 && n > 0 {
+					bad := [][]byte{{0x80}, {0xff}, {0xe2, 0x82}, {0xe9}, {0xc3}, {0xf0, 0x9f, 0x98}}[r.Intn(6)]
+					at := r.Intn(n)
+					if r.Intn(2) == 0 {
+						at = n - len(bad) // at the very end
+						if at < 0 {
+							at = 0
+						}
+					}
+					for k := 0; k < len(bad) && at+k < n; k++ {
+						b[at+k] = int(bad[k])
+					}
 				}
 			}
 		}
